@@ -74,14 +74,28 @@ def scratch() -> str:
 # TLC
 # ----------------------------------------------------------------------------
 class TLCResult:
-    def __init__(self, out: str, rc: int, wall: float, cmd: List[str]):
-        self.out = out
+    """Statistics of one TLC run; exported lines are streamed from the output file."""
+
+    def __init__(self, path: str, rc: int, wall: float, cmd: List[str]):
+        self.path = path
         self.rc = rc
         self.wall = wall
         self.cmd = cmd
         self.generated = 0
         self.distinct = 0
         self.depth = 0
+        self.exported = 0
+        keep: List[str] = []
+        with open(path, errors="replace") as fh:
+            for line in fh:
+                if line.startswith('"'):
+                    self.exported += 1
+                    continue
+                keep.append(line.rstrip("\n"))
+                if len(keep) > 4000:
+                    del keep[:2000]
+        self.log = "\n".join(keep)
+        out = self.log
         m = re.search(r"(\d+) states generated, (\d+) distinct states found", out)
         if m:
             self.generated = int(m.group(1))
@@ -91,28 +105,39 @@ class TLCResult:
             self.depth = int(m.group(1))
         self.completed = "Model checking completed. No error has been found." in out
         self.sim_traces = 0
-        m = re.search(r"(\d+) traces generated", out)
-        if m:
-            self.sim_traces = int(m.group(1))
+
+    @property
+    def out(self) -> str:
+        with open(self.path, errors="replace") as fh:
+            return fh.read()
 
     @property
     def transitions(self) -> int:
         # every generated state beyond the initial ones is the target of one explored transition
         return max(self.generated - 1, 0)
 
+    def raw_lines(self) -> Iterable[str]:
+        with open(self.path, errors="replace") as fh:
+            for line in fh:
+                if line.startswith('"{') or line.startswith('"['):
+                    yield line
+
     def json_lines(self) -> Iterable[Any]:
         """Objects exported by `PrintT(ToJson(x))` (printed as a quoted TLA+ string)."""
-        for line in self.out.splitlines():
-            if line.startswith('"{') or line.startswith('"['):
-                try:
-                    yield json.loads(json.loads(line))
-                except Exception as e:  # torn line = machinery failure
-                    raise MachineryError(f"cannot parse TLC export line: {line[:200]}") from e
+        for line in self.raw_lines():
+            yield parse_export(line)
 
     def error_excerpt(self) -> str:
-        lines = self.out.splitlines()
-        keep = [l for l in lines if not l.startswith('"')]
+        keep = [l for l in self.log.splitlines()
+                if not l.startswith(("Parsing file", "Semantic processing", "Linting of"))]
         return "\n".join(keep[-60:])
+
+
+def parse_export(line: str) -> Any:
+    try:
+        return json.loads(json.loads(line))
+    except Exception as e:  # torn line = machinery failure
+        raise MachineryError(f"cannot parse TLC export line: {line[:200]}") from e
 
 
 def run_tlc(
@@ -160,9 +185,7 @@ def run_tlc(
         rc = p.returncode
     except subprocess.TimeoutExpired:
         raise MachineryError(f"TLC timed out after {timeout}s on {module}")
-    with open(out_file, errors="replace") as ofh:
-        out = ofh.read()
-    res = TLCResult(out, rc, time.time() - t0, cmd)
+    res = TLCResult(out_file, rc, time.time() - t0, cmd)
     shutil.rmtree(os.path.join(work, "meta"), ignore_errors=True)
     if expect_complete and not res.completed and "-simulate" not in (extra or []):
         raise MachineryError(
@@ -350,7 +373,7 @@ def validate_traces(module: str, cases: List[dict], *, shards: int = 8, cfg: str
     from concurrent.futures import ThreadPoolExecutor
 
     if not cases:
-        return [], []
+        return TraceVerdict([], [], [])
     shards = max(1, min(shards, len(cases)))
     per = (len(cases) + shards - 1) // shards
     parts = chunks(cases, per)
@@ -368,6 +391,7 @@ def validate_traces(module: str, cases: List[dict], *, shards: int = 8, cfg: str
     with ThreadPoolExecutor(max_workers=len(parts)) as ex:
         results = list(ex.map(one, range(len(parts))))
     rejects = []
+    notes = []
     for part, res in zip(parts, results):
         done = None
         for obj in res.json_lines():
@@ -375,7 +399,42 @@ def validate_traces(module: str, cases: List[dict], *, shards: int = 8, cfg: str
                 done = obj["done"]
             elif "reject" in obj:
                 rejects.append(obj)
+            else:
+                notes.append(obj)
         if done != len(part):
             raise MachineryError(f"trace validation of {module} did not finish: done={done} "
                                  f"expected={len(part)}\n{res.error_excerpt()}")
-    return rejects, results
+    return TraceVerdict(rejects, results, notes)
+
+
+class TraceVerdict:
+    def __init__(self, rejects, results, notes):
+        self.rejects = rejects
+        self.results = results
+        self.notes = notes
+
+    def __iter__(self):  # (rejects, results) for simple callers
+        return iter((self.rejects, self.results))
+
+
+# ----------------------------------------------------------------------------
+# parallel map over forked workers (the code under test is imported before the fork)
+# ----------------------------------------------------------------------------
+_PMAP_FN = None
+
+
+def _pmap_call(args):
+    return _PMAP_FN(args)
+
+
+def pmap(fn: Callable[[Any], Any], items: List[Any], procs: int = 16) -> List[Any]:
+    """fn runs in forked children; results are returned in order. Falls back to serial for small inputs."""
+    import multiprocessing as mp
+
+    global _PMAP_FN
+    if len(items) <= 1 or procs <= 1:
+        return [fn(x) for x in items]
+    _PMAP_FN = fn
+    ctx = mp.get_context("fork")
+    with ctx.Pool(min(procs, len(items))) as pool:
+        return pool.map(_pmap_call, items)
